@@ -4,6 +4,7 @@
 // unification tables read through the IPR_VERIF hook at quiescent points.
 #include "common.hpp"
 #include "inspect.hpp"
+#include <tuple>
 #include "successive.hpp"
 #include <optional>
 #include <ipr/impl>
@@ -41,6 +42,7 @@ struct Harness {
    std::vector<const Product*> products;
    std::vector<const Sum*> sums;
    std::vector<const Expr*> exprs;
+   std::vector<std::tuple<const Expr*, std::string, std::string>> with_transfer;   // as-types that carry a non-natural transfer
    std::vector<std::string> links { "C", "C++", "Java", "Fortran", "c", "C+" };
    std::vector<std::string> ccs { "", "cdecl", "stdcall", "fastcall", "C++" };
    std::vector<std::string> idents;
@@ -160,6 +162,13 @@ struct Harness {
       case ASTYPE: {
          r.e = rng.chance(70) ? exprs[rng.below(exprs.size())] : static_cast<const Expr*>(&pick_type());
          if (rng.chance(40)) { r.has_xfer = true; r.link = rng.pick(links); r.cc = rng.pick(ccs); if (rng.chance(40)) { r.link = "C++"; r.cc = ""; } }
+         // an as-type over an earlier as-type that already carries a transfer: with the very same transfer, with another one, with none
+         if (!with_transfer.empty() && rng.chance(15)) {
+            auto& w = with_transfer[rng.below(with_transfer.size())];
+            r.e = std::get<0>(w);
+            switch (rng.below(3)) { case 0: r.has_xfer = true; r.link = std::get<1>(w); r.cc = std::get<2>(w); break; case 1: r.has_xfer = true; r.link = rng.pick(links); r.cc = rng.pick(ccs); break; default: r.has_xfer = false; break; }
+            ctx().count("as_type_over_an_as_type_with_transfer");
+         }
          break;
       }
       case ASTYPE_ID: r.id = rng.pick(idents); break;
@@ -281,6 +290,7 @@ struct Harness {
          node = static_cast<const Type*>(n); asnode = n; expect_cat = Category_code::As_type;
          if (&n->expr() != r.e) bad_operand(r);
          if (!xfer_is(n->transfer(), natural ? "C++" : r.link, natural ? "" : r.cc)) bad_operand(r);
+         if (!natural && with_transfer.size() < 200) with_transfer.emplace_back(static_cast<const Expr*>(n), r.link, r.cc);
          break;
       }
       case ASTYPE_ID: {
@@ -471,7 +481,7 @@ static void body(Ctx& C)
    C.assume("node identity (address) is the observable; keys use addresses for equality only");
    C.assume("get_product/get_sum(const Sequence&) are only given sequences owned by the Lexicon");
    for (int c = 0; c < NCTOR; ++c) { C.need(std::string("distinct_keys:") + ctor_name[c]); C.need(std::string("re_requests:") + ctor_name[c]); }
-   C.need("seq_entry_point_sequence"); C.need("seq_entry_point_warehouse"); C.need("table_validations"); C.need("successive_lexicons_in_one_slot"); C.need("mirror_requests");
+   C.need("seq_entry_point_sequence"); C.need("seq_entry_point_warehouse"); C.need("table_validations"); C.need("successive_lexicons_in_one_slot"); C.need("as_type_over_an_as_type_with_transfer"); C.need("mirror_requests");
    for (int i = 0; i < 4; ++i) C.need(std::string("fn_overload_") + std::to_string(i));
 
    const int histories = C.thorough ? 12 : 3;
